@@ -28,3 +28,14 @@ check("C02",
       "symbolic execution of the real Python code with z3 (symx); set-iteration schedules as solver variables; cross-path "
       "solver queries; concrete replay with forced schedules",
       "DESIGN.md 4/C02")
+check("C09",
+      "Bounded symbolic execution of the real translate/rotate/scale/mirror/transform/copy of Point, Array, Arc, Origin, "
+      "Angle, Spline, PolyLine, DiscreteCurve, LineCurve, Face, Loft (arc/origin/angle/spline edges), Extrude, Revolve; "
+      "operations go through the real Mesh.assemble and Edge.third_point/length. Symbolic entity points, displacement, "
+      "origin, ratio and (for point-like entities) mirror normal; pinned rational rotations. z3 must show transformed "
+      "geometry == harness-written affine map of the original geometry, directions not displaced, lengths scaled, "
+      "arguments unmodified, copies independent.",
+      "floats as reals; rotations from the pinned set only; arccos/trig of symbolic arguments as uninterpreted functions "
+      "with functional-consistency axioms; composites use a pinned mirror normal and (quick) a pinned origin",
+      "symbolic execution of the real Python code with z3 (symx); differential oracle against a first-principles affine map",
+      "DESIGN.md 4/C09")
